@@ -8,7 +8,7 @@ EIGEN_HEAD = re.compile(r"VERIF-EIGEN-ASSERT (\S+?):(\d+) (.*)")
 MARK = re.compile(r"^VH-BEGIN (\d+)")
 TSAN_HEAD = re.compile(r"WARNING: ThreadSanitizer: ([a-z\- ]+?)(?: \(pid=\d+\))?\s*$")
 TSAN_FRAME = re.compile(r"^\s*#(\d+) (.+?) (/[^\s:]+|<null>)(?::\d+)*(?: \(.*\))?\s*$")
-VG_HEAD = re.compile(r"^==\d+== (Invalid (?:read|write) of size \d+|Conditional jump or move depends on uninitialised value\(s\)|Use of uninitialised value of size \d+|Invalid free.*|Mismatched free.*|Syscall param .* uninitialised.*|Source and destination overlap.*)")
+VG_HEAD = re.compile(r"^==\d+== (Invalid (?:read|write) of size \d+|Conditional jump or move depends on uninitialised value\(s\)|Use of uninitialised value of size \d+|Invalid free.*|Mismatched free.*|Source and destination overlap.*)")
 VG_FRAME = re.compile(r"^==\d+==\s+(?:at|by) 0x[0-9A-F]+: (.+?) \((?:in )?([^)]*)\)")
 
 
